@@ -22,6 +22,8 @@ pub struct ChainFaults {
     pub expand_fails: HashMap<u64, u64>,
     /// per-chain sleep in microseconds per density evaluation
     pub sleep_us: HashMap<u64, u64>,
+    /// init_position draws the starting point from the random stream it is given
+    pub random_init: bool,
 }
 
 pub struct TestModel {
@@ -99,7 +101,7 @@ impl Model for TestModel {
         Ok(CpuMath::new(l))
     }
 
-    fn init_position<R: rand::Rng + ?Sized>(&self, _rng: &mut R, position: &mut [f64]) -> Result<()> {
+    fn init_position<R: rand::Rng + ?Sized>(&self, rng: &mut R, position: &mut [f64]) -> Result<()> {
         if !self.faults.init_fails.is_empty() {
             // identification of the calling chain is not possible here; init failures are
             // scripted for all chains or none
@@ -107,6 +109,9 @@ impl Model for TestModel {
         }
         for (i, p) in position.iter_mut().enumerate() {
             *p = 0.1 + 0.05 * i as f64;
+            if self.faults.random_init {
+                *p = (rng.next_u32() as f64) / 2147483648.0 - 1.0;
+            }
         }
         Ok(())
     }
